@@ -543,3 +543,10 @@ mod tests {
         assert_eq!(kvs.len(), 4);
     }
 }
+
+// Verification hook (inactive unless built with `--cfg agdb_verif` under Kani).
+#[cfg(all(agdb_verif, kani))]
+#[allow(unused, dead_code, clippy::all)]
+pub(crate) mod verif_h {
+    include!(concat!(env!("AGDB_VERIF_HARNESS"), "/db_key_value_h.rs"));
+}
